@@ -61,7 +61,6 @@ class TDopt(TypedDict, total=False):
 class NT(NamedTuple):
     a: A
     b: B
-class MyT(Tuple[A, B]): pass
 TB = TypeVar("TB", bound=A)
 class BoundG(Generic[TB]): pass
 class WithCall:
@@ -127,7 +126,7 @@ def model_depth2() -> list[str]:
 EXTRA = [
     "P", "PI", "P2", "PX", "PG[A]", "PG[B]", "GA", "GB", "Color", "Literal[Color.R]", "Literal[Color.G]",
     "Literal[Color.R] | Literal[Color.G]", "bool", "Literal[True]", "Literal[True] | Literal[False]", "float",
-    "int | float", "TD", "TD2", "TDopt", "NT", "MyT", "BoundG[B]", "BoundG[A]", "WithCall", "Type[Color]",
+    "int | float", "TD", "TD2", "TDopt", "NT", "BoundG[B]", "BoundG[A]", "WithCall", "Type[Color]",
     "Type[NT]", "Mapping[str, A]", "Mapping[str, B]", "Iterable[A]", "Iterable[B]",
     "Tuple[A, Unpack[Tuple[B, ...]]]", "Tuple[Unpack[Tuple[A, ...]], B]", "Tuple[A, Unpack[Tuple[A, ...]], B]",
     "Tuple[bool, int]", "Tuple[int, int]", "Co[float]", "Co[bool]", "Inv[int]", "Inv[float]", "Cn[float]",
